@@ -2,7 +2,8 @@
 # Capture: how modelx turns a definition text into `Formula.source`
 
 Mirrors `modelx/core/formula.py`: `Formula._init_from_source`, `_init_from_funcdef`,
-`_init_from_lambda`, `remove_decorator`, `replace_funcname`, `replace_docstring`,
+`_init_from_lambda`, `remove_decorator`, `replace_funcname`, `quote_docstring` (with its table
+`_DOCSTR_ESCAPES`), `replace_docstring`,
 `extract_lambda_from_source`, `extract_lambda_from_func` (together with `textwrap.dedent` /
 `textwrap.indent`, which they call), and the formula-related parts of
 `modelx/core/cells.py`: `UserCellsImpl.set_doc`, `UserCellsImpl.on_rename` (with the loop of
@@ -18,7 +19,13 @@ split: the slicing functions below take a `Layout` (the positions the parser rep
 are what modelx's own code does; `layoutOf` states which positions the parser reports for a
 text that was rendered from a structure of the grammar (`FuncDef`, `LamStmt`).  That
 `layoutOf` agrees with CPython/asttokens is not proved – it is compared on every generated
-case by the correspondence check.
+case by the correspondence check.  `lexTriple`/`readBack` state how CPython reads a
+triple-quoted literal (the escape sequences `quote_docstring` writes, and a few more); that
+too is compared on every generated text (`ast.literal_eval` of the quoted text).
+
+State of /repo described: 35c2f08 (`replace_docstring` replaces the whole docstring
+expression and separates the literal from a one-line body by `"; "`) and 2b72506
+(`quote_docstring`).
 -/
 namespace MxModel.Capture
 
@@ -176,7 +183,7 @@ structure DocPos where
   token (1-based line, 0-based column) -/
   sLine : Nat
   sCol : Nat
-  /-- end of the first statement's first token (only used when `hasDoc`) -/
+  /-- end of the first statement's LAST token (only used when `hasDoc`) -/
   eLine : Nat
   eCol : Nat
 deriving DecidableEq, Repr
@@ -251,16 +258,77 @@ def replaceFuncname (lay : Layout) (t : Text) (n : Line) : Text :=
 
 def q3 : Line := ['"', '"', '"']
 
-/-- the lines of `'"""' + doc + '"""'` after the `indent` loop of `replace_docstring`:
-the first line always gets the body's indentation, the others only with `insert_indents`
-(and, `textwrap.indent` being what it is, only if they are not blank) -/
-def newDoc (ind : Line) (d : Span) (ii : Bool) : Line × Text :=
-  match d.more with
-  | none => (ind ++ q3 ++ d.first ++ q3, [])
-  | some (mid, last) =>
-    (ind ++ q3 ++ d.first,
-     mid.map (fun l => if ii then indentLine ind l else l)
-       ++ [(if ii then ind else []) ++ last ++ q3])
+/-! ### `quote_docstring` -/
+
+/-- `_DOCSTR_ESCAPES`: the backslash, NUL, and every character other than the line feed at
+which `str.splitlines()` (used by `remove_decorator`/`replace_funcname`) or the tokenizer
+(`\r`) would start a new line -/
+def docEscapes : List (Char × List Char) :=
+  [('\\', ['\\', '\\']),
+   (Char.ofNat 0, ['\\', 'x', '0', '0']),
+   ('\r', ['\\', 'r']),
+   (Char.ofNat 0x0b, ['\\', 'x', '0', 'b']),
+   (Char.ofNat 0x0c, ['\\', 'x', '0', 'c']),
+   (Char.ofNat 0x1c, ['\\', 'x', '1', 'c']),
+   (Char.ofNat 0x1d, ['\\', 'x', '1', 'd']),
+   (Char.ofNat 0x1e, ['\\', 'x', '1', 'e']),
+   (Char.ofNat 0x85, ['\\', 'x', '8', '5']),
+   (Char.ofNat 0x2028, ['\\', 'u', '2', '0', '2', '8']),
+   (Char.ofNat 0x2029, ['\\', 'u', '2', '0', '2', '9'])]
+
+/-- `_DOCSTR_ESCAPES.get(c, c)` -/
+def escapeChar (c : Char) : List Char :=
+  match docEscapes.lookup c with
+  | some e => e
+  | none => [c]
+
+/-- the loop of `quote_docstring`: `quotes` is the length of the current run of unescaped
+double quotes, the argument list is `docstr[i:]` (so `i == last` is "nothing follows").  A
+quote is escaped when it would be the third of a run or is the last character. -/
+def quoteChars : Nat → List Char → List Char
+  | _, [] => []
+  | quotes, c :: cs =>
+    if c = '"' then
+      if quotes + 1 = 3 ∨ cs = [] then '\\' :: '"' :: quoteChars 0 cs
+      else '"' :: quoteChars (quotes + 1) cs
+    else escapeChar c ++ quoteChars 0 cs
+
+/-- `quote_docstring(docstr)`: a triple-quoted literal whose value is `docstr` -/
+def quoteDocstring (doc : List Char) : List Char := q3 ++ quoteChars 0 doc ++ q3
+
+/-- cut at every line feed, keeping the last piece (`str.splitlines()` for a text that does
+not end in a line boundary and has no other line boundary than the line feed – which is what
+`quote_docstring` returns; also `str.split("\n")`) -/
+def splitLines : List Char → Text
+  | [] => [[]]
+  | c :: cs =>
+    if c = '\n' then [] :: splitLines cs
+    else match splitLines cs with
+      | [] => [[c]]
+      | l :: ls => (c :: l) :: ls
+
+/-- the characters `str.isspace()` accepts (`textwrap.indent` leaves a line alone if
+`line.strip()` is empty) -/
+def pySpaces : List Nat :=
+  [9, 10, 11, 12, 13, 28, 29, 30, 31, 32, 133, 160, 5760, 8192, 8193, 8194, 8195, 8196, 8197,
+   8198, 8199, 8200, 8201, 8202, 8232, 8233, 8239, 8287, 12288]
+
+/-- `textwrap.indent(l, p)` for one line -/
+def pyIndentLine (p l : Line) : Line :=
+  if l.all (fun c => pySpaces.contains c.toNat) then l else p ++ l
+
+/-- a text as its first line and the lines after it -/
+def docLines (quoted : List Char) : Line × Text :=
+  match splitLines quoted with
+  | [] => ([], [])
+  | l :: ls => (l, ls)
+
+/-- `lines = docstr.splitlines()`, the `indent` loop of `replace_docstring` and
+`"\n".join(lines)`: the first line always gets the body's indentation, the others only with
+`insert_indents` (and, `textwrap.indent` being what it is, only if they are not blank) -/
+def newDoc (ind : Line) (quoted : List Char) (ii : Bool) : Line × Text :=
+  (pyIndentLine ind (docLines quoted).1,
+   (docLines quoted).2.map (fun l => if ii then pyIndentLine ind l else l))
 
 def appendLast (t : Text) (b : Line) : Text :=
   match t with
@@ -280,20 +348,29 @@ def splice (t : Text) (sl sc el ec : Nat) (new : Line × Text) : Text :=
     ++ joinLines ((t.getD (sl - 1) []).take sc) new ((t.getD (el - 1) []).drop ec)
     ++ t.drop el
 
-/-- `replace_docstring(source, docstr, insert_indents)` -/
-def replaceDocstring (lay : Layout) (t : Text) (d : Span) (ii : Bool) : Text :=
+/-- the text `"; "` that the repaired `replace_docstring` puts between the new literal and the
+first statement of a one-line body -/
+def semi : Line := [';', ' ']
+
+/-- `replace_docstring(source, docstr, insert_indents)`.  `eLine`/`eCol` is the end of the
+LAST token of the docstring statement: the whole expression is replaced. -/
+def replaceDocstring (lay : Layout) (t : Text) (doc : List Char) (ii : Bool) : Text :=
   let p := lay.doc
+  let quoted := quoteDocstring doc
   if p.compound then
     if p.hasDoc then
-      -- src_front + docstr + source[first_stmt.first_token.endpos:]
-      splice t p.sLine 0 p.eLine p.eCol (newDoc p.indent d ii)
+      -- source[:prev_token.startpos] + docstr + source[first_stmt.last_token.endpos:]
+      splice t p.sLine 0 p.eLine p.eCol (newDoc p.indent quoted ii)
     else
       -- src_front + docstr + "\n" + source[prev_token.startpos:]
-      splice t p.sLine 0 p.sLine 0 ((newDoc p.indent d ii).1, (newDoc p.indent d ii).2 ++ [[]])
+      splice t p.sLine 0 p.sLine 0 ((newDoc p.indent quoted ii).1, (newDoc p.indent quoted ii).2 ++ [[]])
   else
     -- single line: no indentation is inserted, whatever `insert_indents` says
-    if p.hasDoc then splice t p.sLine p.sCol p.eLine p.eCol (newDoc [] d false)
-    else splice t p.sLine p.sCol p.sLine p.sCol (newDoc [] d false)
+    if p.hasDoc then splice t p.sLine p.sCol p.eLine p.eCol (docLines quoted)
+    else
+      -- source[:first_token.startpos] + docstr + "; " + source[first_token.startpos:]
+      splice t p.sLine p.sCol p.sLine p.sCol
+        ((docLines (quoted ++ semi)).1, (docLines (quoted ++ semi)).2)
 
 /-- `Formula._init_from_funcdef(src, name)`; `parse` stands for
 `asttokens.ASTTokens(source, parse=True)` plus the `ast.walk` searches (each rewriting
@@ -307,8 +384,9 @@ def captureText (parse : Text → Layout) (t : Text) (name : Option Line) : Text
 
 /-- `UserCellsImpl.set_doc` for a `def` formula followed by `set_cells_formula` →
 `on_set_property` → `Formula(funcdef, name=self.name)` -/
-def setDocText (parse : Text → Layout) (t : Text) (d : Span) (ii : Bool) (name : Line) : Text :=
-  captureText parse (replaceDocstring (parse t) t d ii) (some name)
+def setDocText (parse : Text → Layout) (t : Text) (doc : List Char) (ii : Bool) (name : Line) :
+    Text :=
+  captureText parse (replaceDocstring (parse t) t doc ii) (some name)
 
 /-! ## The same on the structure (the specification) -/
 
@@ -342,51 +420,93 @@ def captureS (f : FuncDef) (name : Option Line) : FuncDef :=
 
 def mkDoc (d : Span) : DocLit := { opn := q3, txt := d, cls := q3 }
 
-/-- the docstring `replace_docstring` writes into a block body -/
+/-- lines as a span -/
+def spanOf (t : Text) : Span :=
+  match t with
+  | [] => { first := [] }
+  | [a] => { first := a }
+  | a :: r => { first := a, more := some (r.dropLast, r.getLast?.getD []) }
+
+/-- what stands between the triple quotes of the literal `quote_docstring` makes of a
+documentation text, line by line -/
+def docSpan (doc : List Char) : Span := spanOf (splitLines (quoteChars 0 doc))
+
+/-- the docstring `replace_docstring` writes into a block body (`d`: the escaped text) -/
 def blockDoc (ind : Line) (d : Span) (ii : Bool) : DocLit :=
   mkDoc { first := d.first,
           more := d.more.map (fun m =>
-            (m.1.map (fun l => if ii then indentLine ind l else l),
+            (m.1.map (fun l => if ii then pyIndentLine ind l else l),
              (if ii then ind else []) ++ m.2)) }
 
 def setDocBody (d : Span) (ii : Bool) : Body → Body
-  | .inline _ stmts => .inline (some (mkDoc d)) stmts
+  | .inline (some _) stmts => .inline (some (mkDoc d)) stmts
+  | .inline none stmts => .inline (some (mkDoc d)) (semi ++ stmts)
   | .block sm cmts ind (some _) after rest =>
     .block sm cmts ind (some (blockDoc ind d ii)) after rest
   | .block sm cmts ind none first rest =>
     .block sm cmts ind (some (blockDoc ind d ii)) [] ((ind ++ first) :: rest)
 
-def replaceDocS (f : FuncDef) (d : Span) (ii : Bool) : FuncDef :=
-  { f with body := setDocBody d ii f.body }
+/-- `replace_docstring` on the structure: the docstring literal becomes the quoted text -/
+def replaceDocS (f : FuncDef) (doc : List Char) (ii : Bool) : FuncDef :=
+  { f with body := setDocBody (docSpan doc) ii f.body }
 
-def setDocS (f : FuncDef) (d : Span) (ii : Bool) : FuncDef :=
-  captureS (replaceDocS f d ii) (some f.name)
-
-/-- A one-line body that gets a docstring but had none: the literal is glued to the first
-statement (`def f(x): """doc"""return x`).  That is a statement list only if the rest
-starts with a separator. -/
-def gluedOK (stmts : Line) : Bool :=
-  match stmts.dropWhile isWs with
-  | [] => true
-  | c :: _ => c == ';' || c == '#'
-
-def setDocCompiles (f : FuncDef) : Bool :=
-  match f.body with
-  | .inline none stmts => gluedOK stmts
-  | _ => true
+/-- `set_doc`: replace, then capture again under the cells' name -/
+def setDocS (f : FuncDef) (doc : List Char) (ii : Bool) : FuncDef :=
+  captureS (replaceDocS f doc ii) (some f.name)
 
 /-! ## Reading a docstring back -/
 
-/-- CPython's lexer on the characters after an opening `"""`: the content up to the first
-`"""`, and what follows it.  A backslash starts an escape sequence; the model does not
-evaluate escape sequences and gives up (`none`), which is conservative: CPython keeps
-unknown ones such as `\q` unchanged. -/
+def hexVal (c : Char) : Option Nat :=
+  if '0' ≤ c ∧ c ≤ '9' then some (c.toNat - 48)
+  else if 'a' ≤ c ∧ c ≤ 'f' then some (c.toNat - 87)
+  else if 'A' ≤ c ∧ c ≤ 'F' then some (c.toNat - 55)
+  else none
+
+/-- the number a list of hexadecimal digits denotes -/
+def hexNum : Nat → List Char → Option Nat
+  | acc, [] => some acc
+  | acc, c :: cs =>
+    match hexVal c with
+    | some v => hexNum (16 * acc + v) cs
+    | none => none
+
+def consVal (c : Char) (r : Option (List Char × List Char)) : Option (List Char × List Char) :=
+  r.map (fun p => (c :: p.1, p.2))
+
+/-- CPython's reading of the characters after an opening `"""` (no prefix): the VALUE of the
+literal up to the first unescaped `"""`, and what follows it.  Escape sequences evaluated:
+`\\`, `\"`, `\'`, `\n`, `\r`, `\t`, `\xHH`, `\uXXXX` and backslash-newline; on any other
+backslash sequence the model gives up (`none`) – CPython keeps unknown ones such as `\q`
+unchanged, octal and `\N{…}` are not modelled; `quote_docstring` writes none of them. -/
 def lexTriple : List Char → Option (List Char × List Char)
   | [] => none
   | c :: cs =>
-    if c = '\\' then none
+    if c = '\\' then
+      match cs with
+      | [] => none
+      | e :: r =>
+        if e = '\\' ∨ e = '"' ∨ e = '\'' then consVal e (lexTriple r)
+        else if e = 'n' then consVal '\n' (lexTriple r)
+        else if e = 'r' then consVal '\r' (lexTriple r)
+        else if e = 't' then consVal '\t' (lexTriple r)
+        else if e = '\n' then lexTriple r
+        else if e = 'x' then
+          match r with
+          | a :: b :: r' =>
+            match hexNum 0 [a, b] with
+            | some n => consVal (Char.ofNat n) (lexTriple r')
+            | none => none
+          | _ => none
+        else if e = 'u' then
+          match r with
+          | a :: b :: c' :: d :: r' =>
+            match hexNum 0 [a, b, c', d] with
+            | some n => consVal (Char.ofNat n) (lexTriple r')
+            | none => none
+          | _ => none
+        else none
     else if q3.isPrefixOf (c :: cs) then some ([], cs.drop 2)
-    else (lexTriple cs).map (fun r => (c :: r.1, r.2))
+    else consVal c (lexTriple cs)
 
 def Span.lines (s : Span) : Text :=
   match s.more with
@@ -398,46 +518,41 @@ def flat : Text → List Char
   | [l] => l
   | l :: ls => l ++ '\n' :: flat ls
 
-/-- the value CPython reads from `"""` + content + `"""`, if that is one complete literal -/
-def readBack (content : Span) : Option Span :=
-  if lexTriple (flat content.lines ++ q3) = some (flat content.lines, []) then some content
+/-- the value CPython reads from a source text that is one complete `"""…"""` literal -/
+def readBack (lit : List Char) : Option (List Char) :=
+  if q3.isPrefixOf lit then
+    match lexTriple (lit.drop 3) with
+    | some (v, []) => some v
+    | _ => none
   else none
 
-/-- characters after which `str.splitlines()` – used by `remove_decorator` and
-`replace_funcname` to cut the source into lines – starts a new line although the tokenizer
-does not, plus NUL, which `compile` refuses -/
-def oddBreaks : List Char :=
-  ['\r', Char.ofNat 0x0b, Char.ofNat 0x0c, Char.ofNat 0x1c, Char.ofNat 0x1d, Char.ofNat 0x1e,
-   Char.ofNat 0x85, Char.ofNat 0x2028, Char.ofNat 0x2029, Char.ofNat 0]
+/-- a line that `textwrap.dedent` leaves as it is: not made of blanks only, or empty -/
+def cleanLine (l : Line) : Bool := !blank l || l.isEmpty
 
-def hasTriple : List Char → Bool
-  | [] => false
-  | c :: cs => q3.isPrefixOf (c :: cs) || hasTriple cs
-
-/-- documentation texts that survive being pasted between `"""` unescaped -/
-def SafeChars (s : List Char) : Bool :=
-  !hasTriple s && s.getLast? != some '"' && !s.contains '\\'
-
-/-- a documentation text for which `doc = d` reads back as `d`: safe characters, and no
-whitespace-only line in the middle (the rebuilt source goes through `dedent` again) -/
-def SafeDoc (d : Span) : Bool := SafeChars (flat d.lines) && d.norm == d
-
-/-- the model cuts documentation texts at `\n` only; texts with other line boundaries (or
-NUL) are outside it and are reported as `unsafe` by the driver -/
-def plainBreaks (d : Span) : Bool := (flat d.lines).all (fun c => !oddBreaks.contains c)
+/-- no whitespace-only line strictly inside the text.  `set_doc` captures the rebuilt source
+again, `dedent` included, which empties such lines also inside the docstring (known finding
+`C20-dedent-in-string`). -/
+def NoWsOnlyMiddle (doc : List Char) : Bool := ((splitLines doc).drop 1).dropLast.all cleanLine
 
 def Body.docLit : Body → Option DocLit
   | .inline doc _ => doc
   | .block _ _ _ doc _ _ => doc
 
 /-- the value of a literal written by `replace_docstring` -/
-def DocLit.value (l : DocLit) : Option Span :=
-  if l.opn = q3 ∧ l.cls = q3 then readBack l.txt else none
+def DocLit.value (l : DocLit) : Option (List Char) :=
+  if l.opn = q3 ∧ l.cls = q3 then readBack (q3 ++ flat l.txt.lines ++ q3) else none
 
-/-- everything of a body except the docstring literal (a line that holds nothing but the
-literal goes with it) -/
+/-- a statement separator with the blanks around it, removed -/
+def dropSep (l : Line) : Line :=
+  match l.dropWhile isWs with
+  | c :: r => if c = ';' then r.dropWhile isWs else c :: r
+  | [] => []
+
+/-- everything of a body except the docstring statement: the literal, the `;` that ends its
+statement in a one-line body, and a line that holds nothing but the literal -/
 def Body.undoc : Body → Text
-  | .inline _ stmts => [stmts]
+  | .inline none stmts => [stmts.dropWhile isWs]
+  | .inline (some _) stmts => [dropSep stmts]
   | .block sm cmts ind none first rest => sm ++ cmts ++ (ind ++ first) :: rest
   | .block sm cmts ind (some _) after rest =>
     if after.isEmpty then sm ++ cmts ++ rest else sm ++ cmts ++ (ind ++ after) :: rest
@@ -533,7 +648,7 @@ structure Entry where
   derived : Bool
   formula : Formula
   /-- `Impl._doc`, used by `doc` only while the formula is a lambda -/
-  ldoc : Option Span := none
+  ldoc : Option (List Char) := none
 deriving DecidableEq, Repr
 
 def renameFormula (n : Line) : Formula → Formula
@@ -559,7 +674,7 @@ def renameChain (n : Line) : Option Formula → List Entry → List Entry
 /-- `ModelImpl.set_cells_property(cells, PROP_FORMULA, func)`: the cells itself becomes
 defined with the new formula; the cells of the same name below it follow as long as they
 are derived (the first overriding cells and everything below it are skipped). -/
-def setFormulaChain (idx : Nat) (newf : Formula) (ldoc : Option (Option Span)) :
+def setFormulaChain (idx : Nat) (newf : Formula) (ldoc : Option (Option (List Char))) :
     List Entry → List Entry
   | [] => []
   | e :: es =>
